@@ -29,7 +29,7 @@ def itemsN (var : XmlVar) (x : Val) : List Val :=
   | .list xs =>
     if var.tokens then
       (match xs with
-       | [] => if var.nillable then [x] else []
+       | [] => if var.nillable && !var.listElement then [x] else []
        | .list _ :: _ => xs
        | _ => [x])
     else xs
@@ -107,7 +107,7 @@ theorem genValue_chunk (e : BEnv) (Γ : Ctx) (cfg : SerCfg) {m : XmlMeta} {var :
     cases ys with
     | nil =>
       by_cases hn : var.nillable = true
-      · simp [itemsN, ht, hn, itemGen, genValue, hf.mixed, VarCore.isText, hf.isElem, Val.truthy,
+      · simp [itemsN, ht, hn, hl, itemGen, genValue, hf.mixed, VarCore.isText, hf.isElem, Val.truthy,
           Except.map, bind, Except.bind, pure, Except.pure]
         cases convertElement var.toVarCore (Val.list []) <;> simp
       · have hn' : var.nillable = false := by simpa using hn
@@ -122,13 +122,8 @@ theorem genValue_chunk (e : BEnv) (Γ : Ctx) (cfg : SerCfg) {m : XmlMeta} {var :
   | tokLists yss ht hl hyss =>
     cases yss with
     | nil =>
-      by_cases hn : var.nillable = true
-      · simp [itemsN, ht, hn, itemGen, genValue, hf.mixed, VarCore.isText, hf.isElem, Val.truthy,
-          Except.map, bind, Except.bind, pure, Except.pure]
-        cases convertElement var.toVarCore (Val.list []) <;> simp
-      · have hn' : var.nillable = false := by simpa using hn
-        simp [itemsN, ht, hn', genValue, hf.mixed, VarCore.isText, hf.isElem, Val.truthy, Except.map,
-          pure, Except.pure]
+      simp [itemsN, ht, hl, genValue, hf.mixed, VarCore.isText, hf.isElem, Val.truthy, Except.map,
+        pure, Except.pure]
     | cons a l =>
       obtain ⟨ys, rfl⟩ := hyss a (by simp)
       rw [hgen_t ht]
@@ -191,7 +186,7 @@ theorem genValue_objN (e : BEnv) (Γ : Ctx) (cfg : SerCfg) {m : XmlMeta} {var : 
     (hf : ElemFactsN m var) (ht : var.tokens = false) (c : ClassId) (fields : List (Str × Val))
     (ns : Option Str) (hty : var.types = [.cls c]) (f : Nat) :
     genValue e Γ cfg (f + 3) (.obj c fields) var ns =
-      genObj e Γ cfg f (.obj c fields) ns (some var.qname) var.nillable none := by
+      genObj e Γ cfg f (.obj c fields) ns (some var.qname) false none := by
   simp [genValue, genAnyType, genXsiElement, hf.mixed, ht, VarCore.isText, VarCore.isElements,
     VarCore.isElement, VarCore.isWildcard, hf.isElem, Val.isArray, hty,
     bind, Except.bind, pure, Except.pure]
@@ -202,8 +197,7 @@ theorem genValue_objD (e : BEnv) (Γ : Ctx) (cfg : SerCfg) {m : XmlMeta} {var : 
     (ns : Option Str) (hty : var.types = [.cls c]) (hcl : var.clazz = some c) (hne : cls ≠ c)
     (hder : Γ.isDerived cls c = true) {mg : XmlMeta} (hfetch : Γ.fetch cls ns none = .ok mg) (f : Nat) :
     genValue e Γ cfg (f + 3) (.obj cls fields) var ns =
-      genObj e Γ cfg f (.obj cls fields) ns (some var.qname) var.nillable
-        (realXsiType var.qname mg.targetQName) := by
+      genObj e Γ cfg f (.obj cls fields) ns (some var.qname) false mg.targetQName := by
   have hbeq : (TypeRef.cls cls == TypeRef.cls c) = false := by
     rw [beq_eq_false_iff_ne]; intro h; cases h; exact hne rfl
   have hc : ([TypeRef.cls c].contains (TypeRef.cls cls)) = false := by
